@@ -33,7 +33,7 @@ CHECKS = {
 CHECKS['C07'] = ('exploration',
    'metamorphic runtime oracle render(f) vs render(2^-k f) compared as multisets + independent finest-cell sweep (every generic sign-changing cell must own output); evaluation counts via counting wrappers',
    'Real MarchingCubesOctree / MarchingSquaresQuadtree renders of 1-Lipschitz fields with a prescribed bounding box; features are placed relative to the learned tree (sphere tangent +-delta to a coarse cube face, vertex on a coarse cube corner, small feature in a coarse cube corner, thin plates, far-apart features). Scaling by 2^-k leaves signs and interpolation ratios bit-identical but disables all pruning, so both outputs must be identical multisets; an independent sweep over all finest cells catches losses common to both renders (e.g. a dropped child).',
-   'Depths 2..7 quick / 2..8 thorough; cases where a value crosses the absolute 1e-12 snap epsilon under scaling are counted and skipped for oracle 1 only.',
+   'Depths 2..7 quick / 2..8 thorough; cases where a value crosses the absolute 1e-12 snap epsilon under scaling are counted and skipped for oracle 1 only. Also: corner clips of 1e-9..1e-2 of a half diagonal, fields undefined (NaN) at finest cube centres, renderer reuse and aborted (panicked, recovered) renders in the history, high-resolution rods / bars (255..2100 octree cells, 33000+ quadtree cells) judged by closure + accuracy + coverage, the latter also in a GOARCH=386 build of the harness (word size).',
    'DESIGN.md 2/C07')
 CHECKS['C15'] = ('exploration',
    'read-back differential monitor: files written by To3MF/ToDXF/ToSVG/SaveDXF/SaveSVG (scripted renderers for the streaming paths) decoded with independent readers (go3mf, yofu/dxf + raw group-code scan, encoding/xml) and compared with an exact rational rounding oracle',
@@ -70,7 +70,7 @@ CHECKS['C03'] = ('exploration',
 CHECKS['C12'] = ('fault_enumeration',
    'OS-level fault injection in child processes (RLIMIT_FSIZE at enumerated byte offsets, /dev/full, create failures) with the Go runtime deadlock detector as logical hang oracle; goroutine census (pprof goroutine profile filtered on sdfx frames) at quiescence after each of K renders',
    'Each ToSTL/To3MF/ToDXF/ToSVG call runs on the main goroutine of a child with no timers; if the writer has gone and the renderer blocks on the channel the runtime reports "all goroutines are asleep - deadlock!", which (or a dump with the caller in chan send) is the violation; returned calls print a marker. Fault points: create (7 kinds incl. dangling symlink, symlink loop, path below a regular file, over-long name), /dev/full, size limits at header, first flush, every n-th flush (thorough: all multiples of 4096 +-1, every 7th byte below 400, 60 PRNG offsets), final flush/seek/rewrite. Census: sdfx goroutines after k=1..K renders must not grow after warm-up.',
-   'K=30 quick / 200 thorough renders per sink/renderer; a call that spins is ended by RLIMIT_CPU (40 s) and judged on the CPU it consumed; a wall-clock watchdog expiry is inconclusive, never a violation.',
+   'K=30 quick / 200 thorough renders per sink/renderer; a call that spins is ended by RLIMIT_CPU (40 s) and judged on the CPU it consumed; also scripted multi-part renders (Write, Close, Write ...), non-finite geometry, a child pinned to a single CPU (NumCPU() == 1) and GOMAXPROCS changing between the renders of a census; a wall-clock watchdog expiry is inconclusive, never a violation.',
    'DESIGN.md 2/C12')
 
 
